@@ -10,8 +10,8 @@
 (***************************************************************************)
 EXTENDS Number, Lemire
 
-VARIABLES f, e, m, many, phase
-vars == <<f, e, m, many, phase>>
+VARIABLES f, e, m, many, phase, si, sf
+vars == <<f, e, m, many, phase, si, sf>>
 Fmts == <<F64, F32>>
 
 Exps == (-400..400) \cup {MinI32, MinI32 + 1, -4097, -4096, -4095, 4095, 4096, 4097, MaxI32 - 1, MaxI32}
@@ -43,10 +43,25 @@ CounterBound == 19 < IntPow10Len /\ 26 < IntPow5Len
 LemireIndexOK(F, num) ==
   (num.mant # <<>> /\ num.exp >= Smallest10(F) /\ num.exp <= Largest10(F)) => (num.exp - P5Min) \in 0..(P5Max - P5Min)
 
-Init == f \in 1..2 /\ e \in Exps /\ m \in 1..Len(Mants) /\ many \in BOOLEAN /\ phase = "new"
-Next == phase = "new" /\ phase' = "done" /\ UNCHANGED <<f, e, m, many>>
-        /\ LET num == [mant |-> Mants[m], exp |-> e, many |-> many] IN
-           Assert(ReadsMeaningful(Fmts[f], num) /\ CounterBound, <<"unchecked read out of bounds", f, e, m, many>>)
+\* second family: byte STRINGS (run-structured, byte classes as element values (byte - 48) mod 256) pushed through the
+\* parse_number model, then the same obligations on the Number it produces
+Classes == {0, 9, 10, 207, 208, 255}          \* '0' '9' ':' 0xFF NUL '/'
+RunLens == {1, 19, 20, 21}
+Runs == {<<>>} \cup {<<[d |-> <<c>>, n |-> l]>> : c \in Classes, l \in RunLens}
+TwoRuns == {<<[d |-> <<c1>>, n |-> l1], [d |-> <<c2>>, n |-> 19]>> : c1 \in Classes, l1 \in RunLens, c2 \in {9, 207, 255}}
+StrExps == {MinI32, -400, -23, -22, 0, 22, 37, 38, 400, MaxI32}
+
+Init ==
+  /\ phase = "new" /\ f \in 1..2
+  /\ \/ /\ e \in Exps /\ m \in 1..Len(Mants) /\ many \in BOOLEAN /\ si = <<>> /\ sf = <<>>
+     \/ /\ e \in StrExps /\ m = 0 /\ many = FALSE /\ si \in Runs \cup TwoRuns /\ sf \in Runs
+
+Next == phase = "new" /\ phase' = "done" /\ UNCHANGED <<f, e, m, many, si, sf>>
+        /\ LET num == IF m > 0 THEN [mant |-> Mants[m], exp |-> e, many |-> many]
+                      ELSE LET n == ParseNumber(si, sf, e) IN [mant |-> n.mant, exp |-> n.exp, many |-> n.many]
+           IN Assert(ReadsMeaningful(Fmts[f], num) /\ CounterBound /\ IsU64(num.mant) /\ num.exp >= MinI32 /\ num.exp <= MaxI32
+                     /\ LemireIndexOK(Fmts[f], num),
+                     <<"unchecked read out of bounds / Number out of its machine types", f, e, m, many, si, sf>>)
 Spec == Init /\ [][Next]_vars
 TypeOK == phase \in {"new", "done"}
 =============================================================================
